@@ -24,6 +24,7 @@ const Bufsiz = 2 // must match cmd/c10/bufsiz
 
 type cfg struct {
 	TypedStalled bool // an additional typed (pod) subscription whose consumer is stalled
+	Paced        bool // the driver waits for quiescence after every event (the library's internal stages never lag), and every node's own cache is then judged
 	Refilter     bool // after the stream: Refilter a stalled direct filtered subscription so that it emits more events than its buffer holds
 	Name         string
 	Tree         []hx.Spec
@@ -81,6 +82,7 @@ type inst struct {
 	typedGot           *[]string
 	rootList, wantList string
 	clock              int64
+	idles              int64 // SleepIdle(1) calls made by the driver: the only legitimate reason for virtual time to advance
 }
 
 func (in *inst) handler(n *hx.Node) kcache.Handler {
@@ -98,6 +100,11 @@ func (in *inst) handler(n *hx.Node) kcache.Handler {
 		OnCreate(func(o metav1.Object) { note("create:" + hx.ObjString(o)) }).
 		OnUpdate(func(o metav1.Object) { note("update:" + hx.ObjString(o)) }).
 		OnDelete(func(o metav1.Object) { note("delete:" + hx.ObjString(o)) }).Create()
+}
+
+func (in *inst) idle() {
+	in.idles++
+	vs.SleepIdle(1)
 }
 
 func (in *inst) run() {
@@ -166,6 +173,36 @@ func (in *inst) run() {
 		for i := 0; i < in.healthy; i++ {
 			<-in.acks
 		}
+		if in.c.Paced {
+			in.idle()
+		}
+	}
+	// "the caches stay current": every node's own cache (also a stalled one's: it is maintained by the library, not by the
+	// consumer) follows the stream.  Judged in paced scenarios only: otherwise the scheduler may delay an internal
+	// stage until ITS (model size 2) buffer overruns, which is the documented loss, not a stale cache.
+	if pl, err := in.root.Cache.List(); err == nil && in.c.Paced {
+		in.idle()
+		hx.Walk(in.nodes, func(n *hx.Node) {
+			c := n.Cache()
+			if c == nil {
+				return
+			}
+			var want []metav1.Object
+			for _, o := range pl {
+				ok := true
+				for a := n; a != nil; a = a.Parent {
+					if (a.Spec.Kind == "fsub" || a.Spec.Kind == "fclone") && !hx.RefAccept(a.Spec.Filter, o) {
+						ok = false
+					}
+				}
+				if ok {
+					want = append(want, o)
+				}
+			}
+			if l, err := c.List(); err == nil && hx.ListString(l) != hx.ListString(want) {
+				vs.Fail("node cache not current | tree %s stalled %v: after the stream and at quiescence the cache of %s holds %s, the parent's accepted objects are %s", specs(in.c.Tree), keys(in.c.Stalled), n.Path, hx.ListString(l), hx.ListString(want))
+			}
+		})
 	}
 	if in.c.Refilter {
 		// a stalled DIRECT filtered subscription is refiltered so that more events than its buffer holds are due:
@@ -175,7 +212,7 @@ func (in *inst) run() {
 				n.Refilter(hx.MkFilter(1)) // reject everything: one Delete per cached object
 				n.Refilter(hx.MkFilter(0)) // accept everything: one Create per parent object
 				n.Refilter(hx.MkFilter(0))
-				vs.SleepIdle(1)
+				in.idle()
 				fl, _ := n.Cache().List()
 				pl, _ := in.root.Cache.List()
 				if hx.ListString(fl) != hx.ListString(pl) {
@@ -268,7 +305,7 @@ func (in *inst) check(r *vs.Result) []string {
 			msgs = append(msgs, fmt.Sprintf("stalled consumer lost events within its buffer | typed subscription drained only %v of published %v (buffer %d)", got, pub, Bufsiz))
 		}
 	}
-	if in.clock > 1 {
+	if in.clock > in.idles {
 		msgs = append(msgs, fmt.Sprintf("pipeline waits on a timer while a consumer is stalled | tree %s stalled %v: virtual time advanced to %dns during the stream although nothing in the fan-out path may wait for time", specs(in.c.Tree), keys(in.c.Stalled), in.clock))
 	}
 	if in.rootList != in.wantList {
@@ -306,7 +343,7 @@ func (in *inst) outcome() string {
 }
 
 func scenario(c cfg) runner.Sc {
-	name := fmt.Sprintf("c10/%s/stalled=%s/K%d/%s%d", c.Name, strings.Join(keys(c.Stalled), "+"), c.K, c.Mode, c.Bound)
+	name := fmt.Sprintf("c10/%s/stalled=%s/K%d/%s%d", c.Name+map[bool]string{true: "/paced"}[c.Paced], strings.Join(keys(c.Stalled), "+"), c.K, c.Mode, c.Bound)
 	return runner.Sc{
 		Scenario: explore.Scenario{
 			Name: name, Mode: c.Mode, Bound: c.Bound,
@@ -356,6 +393,9 @@ func Property() runner.Property {
 				out = append(out, scenario(cfg{Name: "typed-sub(stalled),sub", Tree: []hx.Spec{sp("sub", 0)}, TypedStalled: true, K: k, Mode: "S2", Bound: 2}))
 			}
 			fs := []hx.Spec{sp("fsub", 0), sp("sub", 0)}
+			for _, k := range []int{3, 5} {
+				out = append(out, scenario(cfg{Name: "fsub,sub", Tree: []hx.Spec{sp("fsub", 2), sp("sub", 0)}, Stalled: st("0:fsub"), K: k, Paced: true, Mode: "S2", Bound: 2}))
+			}
 			out = append(out, scenario(cfg{Name: "fsub,sub+refilter", Tree: fs, Stalled: st("0:fsub"), K: 3, Refilter: true, Mode: "S2", Bound: 2}))
 			out = append(out, scenario(cfg{Name: "fsub,sub+refilter", Tree: fs, Stalled: st("0:fsub"), K: 5, Refilter: true, Mode: "S2", Bound: 1}))
 			if tier == "thorough" {
